@@ -837,6 +837,11 @@ const noTableSizeLow = ^uint32(0)
 // waiting for what it holds (see Ctx.lock and Close).
 const writeGrace = 2 * time.Second
 
+// sendRun is the most body octets written in one go, with the request's Ctx
+// held throughout: small enough that writeGrace is ample for it on any link
+// worth the name, large enough that the flush per run does not show.
+const sendRun = 64 << 10
+
 // boundWrite gives the socket write that is in progress, if there is one,
 // writeGrace to finish. The deadline is the in-progress write's alone: the next
 // write takes it off again (lockWrites).
@@ -1554,7 +1559,16 @@ func (c *Conn) sendPending(id uint32) error {
 			continue
 		}
 
+		// One run at a time. The request's Ctx is held while a run is written,
+		// and whoever waits for the Ctx gives the write in progress writeGrace
+		// to finish: a run the size of the whole window, to a server that
+		// reads slowly, does not finish in that time, and a frame as ordinary
+		// as a WINDOW_UPDATE for this very stream would cost the connection.
 		n := len(pb.body)
+		if n > sendRun {
+			n = sendRun
+		}
+
 		if int(pb.window) < n {
 			n = int(pb.window)
 		}
